@@ -77,8 +77,7 @@ void snoopy_message_generateFromFormat (
     // Loop all the way to the end of log message format specification
     while (strlen(fmtPos_nextFormatTag) > 0) {
         size_t lengthToCopy;
-        char  dataSourceTag[100];
-        int   dataSourceTagLength;
+        char *dataSourceTag;
         char *fmtPos_dataSourceTagArg;
         const char *dataSourceNamePtr;
         const char *dataSourceArgPtr;
@@ -109,9 +108,7 @@ void snoopy_message_generateFromFormat (
             free(dataSourceMsg);
             return; // Should be "break;" but SonarCloud is complaining about it
         }
-        dataSourceTag[0]    = '\0';
-        dataSourceTagLength = (int)((fmtPos_nextFormatTagClose-1) - (fmtPos_nextFormatTag+2) + 2);
-        snprintf(dataSourceTag, dataSourceTagLength, "%s", fmtPos_nextFormatTag + 2);
+        dataSourceTag = strndup(fmtPos_nextFormatTag + 2, (size_t) (fmtPos_nextFormatTagClose - (fmtPos_nextFormatTag + 2)));
 
         // If data source tag contains ":", then split it into data source name and data source argument
         fmtPos_dataSourceTagArg  = strstr(dataSourceTag, ":");
@@ -132,6 +129,7 @@ void snoopy_message_generateFromFormat (
             snoopy_message_append(logMessage, logMessageBufSize, "[ERROR: Data source '");
             snoopy_message_append(logMessage, logMessageBufSize, dataSourceNamePtr);
             snoopy_message_append(logMessage, logMessageBufSize, "' not found.]");
+            free(dataSourceTag);
             free(dataSourceMsg);
             return; // Should be "break;" but SonarCloud is complaining about it
         }
@@ -150,6 +148,7 @@ void snoopy_message_generateFromFormat (
         }
 
         // Where to start next iteration
+        free(dataSourceTag);
         fmtPos_cur = fmtPos_nextFormatTagClose + 1;
     }
 
